@@ -19,6 +19,7 @@ from . import tlc as tlcmod
 
 VERIF = os.path.dirname(os.path.dirname(os.path.abspath(__file__)))
 REPO = os.environ.get('VERIF_REPO', '/repo')
+OUT = os.environ.get('VERIF_OUT') or VERIF          # where evidence/ and replays/ are written (tools/try_mutants_parallel.sh redirects it)
 
 
 def import_repo():
@@ -178,7 +179,7 @@ class Check(object):
             return 'violation'
         rec = {'property': self.pid, 'key': key, 'site': site, 'what': what, 'driver': driver,
                'case': case, 'expected': expected, 'observed': observed, 'seed': self.seed, 'tier': self.tier}
-        d = os.path.join(VERIF, 'replays', self.pid)
+        d = os.path.join(OUT, 'replays', self.pid)
         os.makedirs(d, exist_ok=True)
         path = os.path.join(d, self.fp(rec) + '.json')
         with open(path, 'w') as f:
@@ -206,8 +207,8 @@ class Check(object):
         ev = {'property_id': self.pid, 'tier': self.tier, 'seed': self.seed, 'level': self.level,
               'coverage': cov, 'assumptions': self.assumptions, 'wall_s': round(wall, 2),
               'violations': sum(self.viol_counts.values())}
-        os.makedirs(os.path.join(VERIF, 'evidence'), exist_ok=True)
-        with open(os.path.join(VERIF, 'evidence', self.pid + '.json'), 'w') as f:
+        os.makedirs(os.path.join(OUT, 'evidence'), exist_ok=True)
+        with open(os.path.join(OUT, 'evidence', self.pid + '.json'), 'w') as f:
             json.dump(ev, f, indent=1, default=str)
             f.write('\n')
         for key, n in sorted(self.known_hits.items()):
